@@ -6,12 +6,17 @@ Source anchors
 
 * `QHA.__init__`: `electronic_energies += volumes * pressure / EVAngstromToGPa`, `fe_phonon / EvTokJmol`
   ↦ `Electronic`, `elEnergy`
+* input handling of `QHA.__init__` (`np.array(...)` copies; repeated analyses on the same caller arrays) ↦ `construct`,
+  `repeated` (`constructAliased`: the excluded in-place behaviour)
 * `QHA.run`, the list `fe = [ph_e + el_e …]` fitted at temperature `i` ↦ `freeEnergy`
 * `_get_num_elems` and the `+1 / -1` adjustment in `run` ↦ `argminAbs`, `numElems`
 * `_set_thermal_expansion` ↦ `thermalExpansion`
 * `_set_heat_capacity_P_numerical` (parabola through three points = `np.polyfit(…, 2)` on three points,
   `cp = -(2*parameters[0])*t`) ↦ `quadCoeff`, `cpNumerical`
 * `_set_gruneisen_parameter` (quartic `np.polyfit` of C_V(V) is an *input* here: its value at `V_i`) ↦ `gruneisen`
+* `_set_heat_capacity_P_polyfit` (quartic fits are inputs: their coefficients) ↦ `poly4`, `dpoly4`, `quadLin`,
+  `dvdtAt`, `cpPolyfit`, `dsdv`; the `NotImplementedError` branch of `heat_capacity_P_polyfit` ↦ `cpPolyfitAvailable`
+* `_equiv_bulk_modulus` ↦ `bulkGPa`
 * the public slices `[: self._len]`, `_len = len(thermal_expansions) = num_elems - 1` ↦ `outLen`
 
 The EOS fit itself (`scipy.optimize.leastsq`) is not modelled: fitted `V(T), G(T), B(T)` are inputs.
@@ -42,6 +47,25 @@ def elEnergy {nt nv : Nat} (eVA3ToGPa : α) (vol : Fin nv → α) (P : Option α
 def freeEnergy {nt nv : Nat} (evToKJmol eVA3ToGPa : α) (vol : Fin nv → α) (P : Option α)
     (el : Electronic α nt nv) (fph : Fin nt → Fin nv → α) (i : Fin nt) (j : Fin nv) : α :=
   fph i j / evToKJmol + elEnergy eVA3ToGPa vol P el i j
+
+/-- `QHA.__init__` / `BulkModulus.__init__` take their inputs with `np.array(...)` (a copy): one analysis maps the caller's
+electronic energies to the internal energies (`+PV` added) and leaves the caller's array as it was -/
+def construct {nt nv : Nat} (eVA3ToGPa : α) (vol : Fin nv → α) (P : Option α) (caller : Electronic α nt nv) :
+    (Fin nt → Fin nv → α) × Electronic α nt nv :=
+  (fun i j => elEnergy eVA3ToGPa vol P caller i j, caller)
+
+/-- the behaviour the property excludes (inputs taken without copying, `+=` in place): the caller's array becomes the
+internal one -/
+def constructAliased {nt nv : Nat} (eVA3ToGPa : α) (vol : Fin nv → α) (P : Option α) (caller : Electronic α nt nv) :
+    (Fin nt → Fin nv → α) × Electronic α nt nv :=
+  let e := fun i j => elEnergy eVA3ToGPa vol P caller i j
+  (e, .perT e)
+
+/-- `n + 1` analyses in a row on the same caller array; result: internal energies of the last one -/
+def repeated {nt nv : Nat} (step : Electronic α nt nv → (Fin nt → Fin nv → α) × Electronic α nt nv) :
+    Nat → Electronic α nt nv → (Fin nt → Fin nv → α)
+  | 0, caller => (step caller).1
+  | n + 1, caller => repeated step n (step caller).2
 
 end energies
 
@@ -93,7 +117,47 @@ def cpNumerical (evToKJmol thousand : α) (T G : Nat → α) (i : Nat) : α :=
     let a2 : α := quadCoeff (T (i - 1)) (T i) (T (i + 1)) (g (i - 1)) (g i) (g (i + 1))
     Neg.neg (2 * a2) * T i
 
+/-- linear coefficient of the parabola `a₂t² + a₁t + a₀` through three points (`np.polyfit(…, 2)[1]`) -/
+def quadLin (t0 t1 t2 v0 v1 v2 : α) : α :=
+  (v1 - v0) / (t1 - t0) - quadCoeff t0 t1 t2 v0 v1 v2 * (t0 + t1)
+
+/-- `np.dot(parameters, [x**4, x**3, x**2, x, 1])` -/
+def poly4 (a b c d e x : α) : α := a * (x * x * x * x) + b * (x * x * x) + c * (x * x) + d * x + e
+
 end fd
+
+section polyfit
+variable {α : Type} [Add α] [Sub α] [Mul α] [Div α] [Neg α] [OfNat α 0] [OfNat α 2] [OfNat α 3] [OfNat α 4]
+
+/-- `np.dot(parameters[:4], [4*x**3, 3*x**2, 2*x, 1])` -/
+def dpoly4 (a b c d x : α) : α := a * (4 * (x * x * x)) + b * (3 * (x * x)) + c * (2 * x) + d
+
+/-- `dvdt = parameters[0]*2*t + parameters[1]` of the parabola through `(T[i-1..i+1], V[i-1..i+1])` -/
+def dvdtAt (T V : Nat → α) (i : Nat) : α :=
+  quadCoeff (T (i - 1)) (T i) (T (i + 1)) (V (i - 1)) (V i) (V (i + 1)) * 2 * T i
+    + quadLin (T (i - 1)) (T i) (T (i + 1)) (V (i - 1)) (V i) (V (i + 1))
+
+/-- `_set_heat_capacity_P_polyfit`: `cp[0] = 0`, `cp[j] = cv_p + t*dvdt*dsdv_t` with the quartic fits of `C_V(V)` and
+`S(V)` at temperature `j` given by their coefficients (`cvc j`, `sc j`: highest power first) and `x = V[j]` -/
+def cpPolyfit (T V : Nat → α) (cvc sc : Nat → Fin 5 → α) (j : Nat) : α :=
+  if j = 0 then 0
+  else
+    poly4 (cvc j 0) (cvc j 1) (cvc j 2) (cvc j 3) (cvc j 4) (V j)
+      + T j * dvdtAt T V j * dpoly4 (sc j 0) (sc j 1) (sc j 2) (sc j 3) (V j)
+
+/-- `self._dsdv` -/
+def dsdv (V : Nat → α) (sc : Nat → Fin 5 → α) (j : Nat) : α :=
+  if j = 0 then 0 else dpoly4 (sc j 0) (sc j 1) (sc j 2) (sc j 3) (V j)
+
+end polyfit
+
+/-- `heat_capacity_P_polyfit` is available only for electronic energies of shape (V) (`NotImplementedError` otherwise) -/
+def cpPolyfitAvailable {α : Type} {nt nv : Nat} : Electronic α nt nv → Bool
+  | .static _ => true
+  | .perT _ => false
+
+/-- `self._equiv_bulk_modulus = parameters[:, 1] * EVAngstromToGPa` -/
+def bulkGPa {α : Type} [Mul α] (eVA3ToGPa b0 : α) : α := b0 * eVA3ToGPa
 
 section grun
 variable {α : Type} [Mul α] [Div α] [OfNat α 0] [LT α] [∀ a b : α, Decidable (a < b)]
